@@ -1,4 +1,39 @@
-(* placeholder until proofs land *)
-From PV Require Import Model.AnnotationOps.
-Theorem C08_placeholder : True. Proof. exact I. Qed.
-Print Assumptions C08_placeholder.
+(* C08  Derived timelines/annotations are independent of their source; reads are pure.
+   Two halves (DESIGN 4/C08):
+   * purity -- proved here on the value model: every read query, although it refreshes caches,
+     leaves the observable content (track map, uri, modality) unchanged, keeps the invariant, and
+     does not influence the answer of any later read;
+   * independence (no shared mutable state between a derived object and its source) -- a statement
+     about aliasing that a value-semantics model cannot express; NOT proved: it is decided by the
+     derive-then-mutate correspondence histories of this check (every deriving operation x cache
+     state x mutated side), see level_note. Statements only. *)
+From PV Require Import Model.AnnotationOps Proofs.AnnotationInvP Proofs.PurityP Check.C02.
+
+Section C08.
+Variable eps : Z.
+Theorem C08_read_is_pure : forall a x, AInv eps a ->
+  abs (fst (do_read eps a x)) = abs a /\ AInv eps (fst (do_read eps a x)).
+Proof. exact (read_pure eps). Qed.
+Theorem C08_any_sequence_of_reads_is_pure : forall xs a, AInv eps a ->
+  abs (reads eps a xs) = abs a /\ AInv eps (reads eps a xs).
+Proof. exact (reads_pure eps). Qed.
+Theorem C08_reads_do_not_change_later_answers : forall xs a lab, AInv eps a ->
+  c_segs (snd (label_timeline eps (reads eps a xs) lab)) = c_segs (snd (label_timeline eps a lab)) /\
+  c_segs (snd (get_timeline eps (reads eps a xs))) = c_segs (snd (get_timeline eps a)) /\
+  (forall l, In l (snd (labels eps (reads eps a xs))) <-> In l (snd (labels eps a))).
+Proof. exact (reads_do_not_change_answers eps). Qed.
+Theorem C08_copy_starts_from_content_not_caches : forall a,
+  a_tracks (copy a) = a_tracks a /\ a_uri (copy a) = a_uri a /\ a_modality (copy a) = a_modality a.
+Proof. exact copy_content. Qed.
+End C08.
+
+Example C08_nonvacuous :
+  let a := ann_of 0 (Some "u"%string) None [((0, 4), NStr "x", NStr "a"); ((2, 6), NStr "_", NStr "b")] in
+  abs (reads 0 a [RLabels []; RGetTimeline [] None; RChart []]) = abs a /\
+  a_labels (reads 0 a [RLabels []]) <> a_labels a.
+Proof. vm_compute. split; [reflexivity | discriminate]. Qed.
+
+Print Assumptions C08_read_is_pure.
+Print Assumptions C08_any_sequence_of_reads_is_pure.
+Print Assumptions C08_reads_do_not_change_later_answers.
+Print Assumptions C08_copy_starts_from_content_not_caches.
